@@ -58,7 +58,9 @@ func repair(fileIO fileIO, parPath string, options RepairOptions) (RepairResult,
 		return RepairResult{}, err
 	}
 
-	err = decoder.LoadParityData()
+	// A stale or foreign parity volume lying next to the set is
+	// unusable, not fatal.
+	err = decoder.loadParityData(true)
 	if err != nil {
 		return RepairResult{}, err
 	}
